@@ -4,11 +4,11 @@ from vlib import *
 import miniproto_gen as G
 
 ID = "C01"
-COQ_FILES = G.COQ_MODEL_FILES + ["Proofs/ValidateRanges.v", "Proofs/LowerNames.v", "Proofs/Validate.v", "Proofs/ValidateJson.v", "Props/C01.v"]
+COQ_FILES = G.COQ_MODEL_FILES + ["Proofs/ValidateRanges.v", "Proofs/LowerNames.v", "Proofs/Validate.v", "Proofs/ValidateJson.v", "Proofs/ValidateBasic.v", "Props/C01.v"]
 PROPS = "Props/C01.v"
 THEOREMS = ["C01_ranges_overlap_sorted_iff", "C01_enum_ranges_overlap_sorted_iff", "C01_cross_overlap_iff",
             "C01_tag_in_range_iff", "C01_enum_number_in_range_iff", "C01_check_tag_iff", "C01_range_bounds_iff",
-            "C01_validate_message_iff", "C01_validate_enum_iff", "C01_validate_field_iff", "C01_json_compliant_iff",
+            "C01_validate_message_iff", "C01_validate_enum_iff", "C01_validate_field_iff", "C01_validate_basic_iff", "C01_json_compliant_iff",
             "C01_protoc_json_compliant_iff", "C01_json_go_eq_protoc_compliant", "C01_json_go_stricter_proto2"]
 AXIOMS_OK = []
 TRUSTED = [
@@ -116,6 +116,18 @@ def run(ctx):
     ctx.extra["outside_model"] = stats
     ctx.extra["documented_divergences_seen"] = nexc
 
+    ctx.extra["rule_families"] = {
+        "F1 numeric ranges (field numbers, reserved / extension / enum reserved ranges, max, message-set limit)": "theorem + oracle",
+        "F2 names per message / enum (duplicate numbers, reserved names, JSON names)": "theorem + oracle",
+        "F4 labels and keywords per syntax, enum first value, allow_alias": "theorem + oracle",
+        "composition of F1/F2/F4 over nested descriptors (validateBasic)": "theorem (C01_validate_basic_iff) + oracle",
+        "construction of the descriptor from the source tree (collection of tag / range errors, oneof / extend non-empty, group names, reserved-name form, message sets)": "oracle only",
+        "symbol uniqueness incl. enum-value scoping and packages": "oracle only (flat model of linker/symbols.go)",
+        "reference resolution": "C15 theorem (reused) + oracle for the kind checks",
+        "extension numbers vs extendee ranges, duplicates, proto3 extendee whitelist, map-entry references": "oracle only",
+        "json_name / default pseudo-options, closed enum in implicit-presence field, enum value JSON conflicts": "oracle only",
+        "F3 / F5 descriptor contents": "see C02",
+    }
     # 3. validation of the specification against protoc's own verdicts
     ctx.extra["spec_golden_agreement"] = golden_agreement(ctx)
 
